@@ -66,6 +66,7 @@ class SymEnv(object):
         shim.HOOKS.fmt = None
         shim.HOOKS.range_cap = None
         shim.HOOKS.float_sqrt = False
+        shim.HOOKS.norm_positive = False
         self.p = core.CUR
 
     # -- inputs
@@ -181,6 +182,9 @@ class SymEnv(object):
 
     def float_sqrt(self, on=True):
         shim.HOOKS.float_sqrt = on
+
+    def assume_norms_positive(self, on=True):
+        shim.HOOKS.norm_positive = on
 
     def own(self, a, name):
         """mark an array as caller-owned: any in-place write to its storage is recorded"""
@@ -405,6 +409,9 @@ class ConcEnv(object):
         pass
 
     def float_sqrt(self, on=True):
+        pass
+
+    def assume_norms_positive(self, on=True):
         pass
 
     def own(self, a, name):
